@@ -311,6 +311,28 @@ def execute(ns, scn):
                            "steps": nsteps, "natural_info_nonzero": len(nat), "solver": solver, "site": site,
                            "failing_steps": int(np.sum(~(base.scores <= 1.0)))}})
             return out
+    # reads must leave the stored levels intact: after both recovery modes and the interpolator were computed,
+    # every step still satisfies the update
+    with warnings.catch_warnings():
+        warnings.simplefilter("ignore")
+        for fn in (lambda: base.res.recovery_factor(), lambda: base.res.recovery_factor(density=True),
+                   lambda: base.res.recovery_factor_interpolator()):
+            try:
+                fn()
+            except Exception:  # noqa: BLE001  (e.g. no density column: not this property's business)
+                pass
+    t2, pp2 = getattr(base.res, "time", None), getattr(base.res, "pseudopressure", None)
+    if t2 is None or pp2 is None:
+        score2, info2 = np.inf, {"reason": "results gone after a read"}
+    else:
+        score2, _sc, _c, info2 = step_scores(base.res, t2, pp2, None)
+    out.log.append(("after-reads", None if pp2 is None else _d(pp2)))
+    if not (score2 <= 1.0):
+        out.violations.append({
+            "clause": "A2-after-read", "fingerprint": f"A2-after-read/{solver}/{cls}",
+            "detail": {"max_score": float(score2), **(info2 or {}), "nx": scn["object"]["nx"], "steps": nsteps,
+                       "note": "the stored levels satisfied the step model right after simulate and no longer do after recovery reads"}})
+        return out
     if scn["config"] != "B":
         return out
     if nrec == 0:
